@@ -772,6 +772,8 @@ pub fn direct_key_api(ctx: &mut Ctx) {
         go::<K256K>(ctx, Scheme::Secp, label, &content);
         #[cfg(feature = "libsecp")]
         go::<LibsecpK>(ctx, Scheme::Secp, label, &content);
-        go::<EdK>(ctx, Scheme::Ed, label & !(1 << 63), &content);
+        if cfg!(feature = "ed") {
+            go::<EdK>(ctx, Scheme::Ed, label & !(1 << 63), &content);
+        }
     }
 }
